@@ -130,7 +130,8 @@ def step (_ : Unit) (line : String) : Unit × String :=
         match sc.toInt?, parseTraces traces with
         | some sc, some ts =>
           -- an error case never reaches the checker: echo the model's error
-          let r := heurScore false h
+          -- (only when no trace is given: the real call raised and the line carries no output)
+          let r := if ts.isEmpty then heurScore false h else ""
           if r.startsWith "ERR" then r else
           let seed : Option (Nat × Nat) := h.seed.map fun s => (s.1.toNat, s.2.toNat)
           let sound := ts.filter fun t => checkResult h.a h.b h.M h.gap h.mode h.band seed h.dir t sc
